@@ -298,6 +298,8 @@ def _maybe_none_term(t, acc: Access) -> Optional[str]:
     if isinstance(t, Sym):
         if t.head in ("call:get", "call:setdefault") and len(t.args) >= 3:
             return _maybe_none_term(t.args[2], acc)
+        if t.head == "getitem" and t.args and t.args[0].key() == T_KEY:
+            return None         # an entry of the table itself: what this rule shows for every store (the same induction as get(key, default))
         if t.head == "call:get":
             return f"{k[:60]} is None when the key is absent"
         if t.head == "call:pop":
@@ -562,8 +564,9 @@ def rule_DF(run: Run) -> RuleResult:
             tk = e.target.key()
             if tk in (own, dflt) or tk.startswith(own_get) or tk.startswith(dflt_get):
                 n_hcalls += 1
-                if e.guards:
-                    guarded.append((e.line, list(e.guards)))
+                catching = [g_ for g_ in e.guards if g_.replace("!", "").strip()]      # (a try/finally catches nothing: its guard is empty)
+                if catching:
+                    guarded.append((e.line, catching))
     res.add("labrea.runtime.Runtime.run:the handler is called outside the try of its look-up", n_hcalls > 0 and not guarded, m.relpath,
             guarded[0][0] if guarded else fn.lineno,
             f"line {guarded[0][0]}: the handler is called inside a try that catches {guarded[0][1]}: an error of that kind raised by the handler is taken for "
@@ -641,6 +644,28 @@ def cur_norm(run: Run, key: str) -> str:
     return key
 
 
+def _atoms(conds):
+    from .interp import Frame
+    return Frame.atoms(conds)
+
+
+def positional_handle(run: Run, t):
+    """``x.handle(R, handler=h)`` is ``x.handle(R, h)``: keyword arguments of a handle() call put at their position."""
+    if isinstance(t, Sym) and t.head == "call:handle" and any(isinstance(a_, Sym) and a_.head.startswith("kw:") for a_ in t.args):
+        rt_h = run.repo.cls("Runtime").methods.get("handle")
+        names = [a_.arg for a_ in rt_h.args.args][1:] if rt_h is not None else []
+        pos = [a_ for a_ in t.args if not (isinstance(a_, Sym) and a_.head.startswith("kw:"))]
+        kws = {a_.head[3:]: a_.args[0] for a_ in t.args if isinstance(a_, Sym) and a_.head.startswith("kw:") and len(a_.args) == 1}
+        for nm in names[len(pos) - 1:]:
+            if nm in kws:
+                pos.append(kws.pop(nm))
+            else:
+                break
+        if not kws:
+            return Sym("call:handle", tuple(pos))
+    return t
+
+
 def _current_runtime_callers(run: Run):
     """(qualname, line) of every call of the function that reads the thread -> runtime table for the current thread."""
     m, rt = _rt(run)
@@ -664,10 +689,13 @@ def _current_runtime_callers(run: Run):
     for mm, cls, fn, q in iter_functions(run.repo):
         if mm.name.startswith("labrea.mypy") or fn is cur.node:
             continue
+        # (``current_runtime().handle(…)`` / ``current_runtime().run(…)`` use the runtime found at that very moment and keep nothing: that
+        # is what handle() and Request.run are — spelled out in place)
+        direct = {id(c.func.value) for c in astu.calls_in(fn) if isinstance(c.func, ast.Attribute) and c.func.attr in ("handle", "run") and isinstance(c.func.value, ast.Call)}
         for c in astu.calls_in(fn):
             r_ = run.repo.resolve_expr(mm, c.func) if isinstance(c.func, (ast.Name, ast.Attribute)) else None
             if r_ and r_[0] == "func" and r_[1] is cur:
-                out.append((q, c.lineno))
+                out.append((q + ("#used at once" if id(c) in direct else ""), c.lineno))
     return cur, out
 
 
@@ -706,7 +734,9 @@ def rule_HI(run: Run) -> RuleResult:
     if cur is None:
         raise AnalysisError("the function that reads the current thread's runtime was not found (anchor vanished)")
     for q, line in callers:
-        ok = q.endswith("Request.run") or q == f"{m.name}.handle"
+        at_once = q.endswith("#used at once")
+        q = q.split("#")[0]
+        ok = q.endswith("Request.run") or q == f"{m.name}.handle" or at_once
         res.add(f"{q}:reads the current runtime", ok, run.repo.functions[q].module.relpath if q in run.repo.functions else m.relpath, line,
                 "at the moment of the request / of the derivation" if ok else
                 f"{cur.name}() called outside Request.run and handle(): the runtime found now is used (or entered) later, when another scope may be active",
@@ -792,7 +822,7 @@ def rule_HI(run: Run) -> RuleResult:
     mh = run.repo.func("labrea.runtime.handle")
     mps = _fn_paths(run, mh.node, None)
     mp_ = [a.arg for a in mh.node.args.args]
-    ok = bool(mps) and all(p.status == "ret" and p.ret is not None and cur_norm(run, p.ret.key()) == f"call:handle(<CUR>,{','.join(mp_)})" for p in mps)
+    ok = bool(mps) and all(p.status == "ret" and p.ret is not None and cur_norm(run, positional_handle(run, p.ret).key()) == f"call:handle(<CUR>,{','.join(mp_)})" for p in mps)
     res.add("labrea.runtime.handle:derives from the current runtime", ok, m.relpath, mh.node.lineno, f"{[p.ret.key()[:80] if p.ret is not None else p.status for p in mps]}", nec)
     for modname, fname in (("labrea.cache", "disabled"), ("labrea.logging", "disabled")):
         fi = run.repo.functions.get(f"{modname}.{fname}")
@@ -1257,8 +1287,9 @@ def rule_TI(run: Run) -> RuleResult:
     for a in inh:
         params = [x.arg for x in a.fn.args.args]
         if a.write and a.method in ("__setitem__", "update") and a.key is not None and a.key.key() == OWN_THREAD and a.value is not None and params \
-                and a.value.key().startswith(f"call:get({T_KEY},{params[0]}"):
-            ok = True
+                and (a.value.key().startswith(f"call:get({T_KEY},{params[0]}") or (a.value.key() == f"getitem({T_KEY},{params[0]})"
+                                                                                      and _atoms(a.path.conds).get(f"cmp:In({params[0]},{T_KEY})") is True)):
+            ok = True       # (``table[parent] if parent in table else Runtime()`` is table.get(parent, Runtime()) path by path)
     ih = run.repo.func("labrea.runtime.inherit")
     # … on every path: an inherit() that leaves an existing entry in place keeps the runtime a reused worker thread was given earlier
     d_inh = ""
